@@ -150,7 +150,8 @@ pub fn main_leg() -> i32 {
 			let _ = tokio::time::timeout(Duration::from_secs(5), task).await;
 			Ok(())
 		});
-		drop(rt);
+		// a subject task that spins without yielding would block an ordinary runtime drop forever
+	rt.shutdown_timeout(Duration::from_secs(2));
 		std::thread::sleep(Duration::from_millis(100));
 		let mut probs = problems.lock().unwrap().clone();
 		let left: Vec<i32> = logged(&pidfile).into_iter().filter(|p| pid_state(*p).map_or(false, |s| s != 'Z')).collect();
